@@ -568,6 +568,14 @@ func (x *Exec) loaded(st *State, v Val, prefix string) Val {
 
 func (x *Exec) store(st *State, av Val, v Val, pos token.Pos) error {
 	u := x.u
+	if v.F != nil && len(v.S) == 0 && (av.P == nil || (len(av.P.Alts) > 0 && av.P.Alts[0].A.Kind != ALocal)) {
+		// a closure stored into the heap (a struct field): it becomes an opaque non-nil function value; calls
+		// through it go by the contract of the field / function type, not by the closure's body
+		id := u.Fresh("closure", SInt)
+		u.Assume(Neq(id, IntLit(0)))
+		u.Trust("a closure stored in a struct field is an opaque function value from then on (calls through the field use the field's / the function type's contract)")
+		v = Val{T: v.T, S: []Term{id}}
+	}
 	if av.P != nil {
 		x.oblig("nil", pos, "nil pointer store", st.PC, av.P.NonNil())
 		u.StorePtr(st, av.P, v)
